@@ -276,6 +276,14 @@ def sockopt_format_level_and_option(level, option_name):
         return level, option_name
 
 
+class SocketType(enum.Enum):
+    SOCK_STREAM = 1
+    SOCK_DGRAM = 2
+    SOCK_RAW = 3
+    SOCK_RDM = 4
+    SOCK_SEQPACKET = 5
+
+
 class RusageWho(enum.Enum):
     RUSAGE_CHILDREN = -1
     RUSAGE_SELF = 0
@@ -1071,7 +1079,7 @@ class BscPeeloff:
 class BscSocketDelegate:
     ktraces: List
     domain: socket.AddressFamily
-    type: socket.SocketKind
+    type: SocketType
     protocol: int
     epid: int
     result: str
@@ -3143,7 +3151,7 @@ class BscSetpriority:
 class BscSocket:
     ktraces: List
     domain: socket.AddressFamily
-    type: socket.SocketKind
+    type: SocketType
     protocol: int
     result: str
 
@@ -3459,7 +3467,7 @@ class BscShutdown:
 class BscSocketpair:
     ktraces: List
     domain: socket.AddressFamily
-    type: socket.SocketKind
+    type: SocketType
     protocol: int
     socket_vector: int
     result: str
@@ -5298,7 +5306,7 @@ def handle_setpriority(parser, events):
 
 def handle_socket(parser, events):
     args = events[0].values
-    return BscSocket(events, socket.AddressFamily(args[0]), socket.SocketKind(args[1]), args[2],
+    return BscSocket(events, socket.AddressFamily(args[0]), SocketType(args[1]), args[2],
                      serialize_result(events[-1], 'fd'))
 
 
@@ -5411,7 +5419,7 @@ def handle_shutdown(parser, events):
 
 def handle_socketpair(parser, events):
     args = events[0].values
-    return BscSocketpair(events, socket.AddressFamily(args[0]), socket.SocketKind(args[1]), args[2], args[3],
+    return BscSocketpair(events, socket.AddressFamily(args[0]), SocketType(args[1]), args[2], args[3],
                          serialize_result(events[-1]))
 
 
@@ -6195,7 +6203,7 @@ def handle_peeloff(parser, events):
 
 def handle_socket_delegate(parser, events):
     args = events[0].values
-    return BscSocketDelegate(events, socket.AddressFamily(args[0]), socket.SocketKind(args[1]), args[2], args[3],
+    return BscSocketDelegate(events, socket.AddressFamily(args[0]), SocketType(args[1]), args[2], args[3],
                              serialize_result(events[-1], 'fd'))
 
 
